@@ -13,6 +13,7 @@ import (
 
 	"github.com/olareg/olareg/config"
 	"github.com/olareg/olareg/internal/verifenv/vh"
+	"github.com/olareg/olareg/internal/verifenv/vclock"
 	"github.com/olareg/olareg/internal/verifenv/vos"
 	"github.com/olareg/olareg/types"
 )
@@ -161,6 +162,20 @@ func VH_C10_Layout() {
 			vhPutManifest(s, "a", digest.Canonical.FromBytes(d.idx1).String(), types.MediaTypeOCI1ManifestList, d.idx1)
 			vhPutManifest(s, "a", "t2", types.MediaTypeOCI1ManifestList, d.idx2)
 		}
+	}
+	if vh.Param("PREFIX", 0) == 3 {
+		// a repository that was filled, emptied and removed by a collection while the
+		// servers kept running: image by tag, deleted by digest, hours later a
+		// collection (the blobs are past their grace period, the empty repository goes)
+		for _, s := range []*Server{sd, sm} {
+			vhPushBlob(s, "a", d.conf)
+			vhPushBlob(s, "a", d.x)
+			vhPutManifest(s, "a", "t1", types.MediaTypeOCI1Manifest, d.img1)
+			vhDo(s, "DELETE", "/v2/a/manifests/"+digest.Canonical.FromBytes(d.img1).String(), nil, nil, nil)
+		}
+		vclock.Advance(2 * time.Hour)
+		vhTick()
+		vh.Assert(!vos.Exists(vhRoot+"/a/index.json"), "C10.setup-repository-not-removed")
 	}
 	for n := 0; n < steps; n++ {
 		repo := repos[vh.Choice("repo", 2)]
